@@ -126,11 +126,16 @@ def ty_sexp(t):
     return "void"
 
 
+_cur = {"consts": None, "blocks": None}    # the function being dumped: ids of its constants / basic blocks
+
+
 def opd_sexp(v):
     load()
     if v is None or isinstance(v, int):
         return "(r %d)" % UNDEF
     if isinstance(v, LinearIR.ConstantValue):
+        if _cur["consts"] is not None and id(v) not in _cur["consts"]:
+            return "(r %d)" % UNDEF          # a constant object that is not registered in this function
         c = v.Value
         if isinstance(c, bool):
             return "(ci %d)" % int(c)
@@ -145,6 +150,8 @@ def opd_sexp(v):
 def label_of(b):
     if b is None or isinstance(b, int):
         return UNDEF
+    if _cur["blocks"] is not None and id(b) not in _cur["blocks"]:
+        return UNDEF                         # a block object of another function / a removed block
     return b.Reference
 
 
@@ -158,7 +165,8 @@ def instr_sexp(i):
     r = i.Reference
     if isinstance(i, L.VariableAccessInstruction):
         sc = scope_name(i.Scope)
-        if i.Store is not None:
+        # the VM dispatches on the opcode, not on the presence of a stored value
+        if i.OpCode == L.OpCode.STORE:
             return "(store %s %s %s)" % (sc, i.Variable, opd_sexp(i.Store))
         return "(load %d %s %s %s)" % (r, ty_sexp(i.Type), sc, i.Variable)
     if isinstance(i, L.DeclareVariableInstruction):
@@ -172,20 +180,20 @@ def instr_sexp(i):
             return "(br %d)" % label_of(i.TrueBlock)
         return "(brc %s %d %d)" % (opd_sexp(i.Predicate), label_of(i.TrueBlock), label_of(i.FalseBlock))
     if isinstance(i, L.ReturnInstruction):
-        return "(ret %s)" % opd_sexp(i.Value) if i.Value is not None else "(ret)"
+        return "(ret %s)" % opd_sexp(i.Value) if i.Value is not None else "(ret)"     # `if instruction.Value:` in the VM; Values are always truthy
     if isinstance(i, L.CallInstruction):
         return "(call %d %s %s%s)" % (r, ty_sexp(i.Type), i.Function, "".join(" " + opd_sexp(a) for a in i.Arguments))
     if isinstance(i, L.ArrayAccessInstruction):
-        if i.Store is not None:
+        if i.OpCode == L.OpCode.STORE_ARRAY:
             return "(storearr %s %s %s)" % (opd_sexp(i.Array), opd_sexp(i.Index), opd_sexp(i.Store))
         return "(loadarr %d %s %s %s)" % (r, ty_sexp(i.Type), opd_sexp(i.Array), opd_sexp(i.Index))
     if isinstance(i, (L.VectorAccessInstruction, L.MatrixAccessInstruction)):
         k = "vec" if isinstance(i, L.VectorAccessInstruction) else "mat"
-        if i.Store is not None:
+        if i.OpCode in (L.OpCode.VECTOR_SET, L.OpCode.MATRIX_SET):
             return "(%sset %d %s %s %s %s)" % (k, r, ty_sexp(i.Type), opd_sexp(i.Array), opd_sexp(i.Index), opd_sexp(i.Store))
         return "(%sget %d %s %s %s)" % (k, r, ty_sexp(i.Type), opd_sexp(i.Array), opd_sexp(i.Index))
     if isinstance(i, L.MemberAccessInstruction):
-        if i.Store is not None:
+        if i.OpCode == L.OpCode.STORE_MEMBER:
             return "(storemem %s %s %s)" % (opd_sexp(i.Variable), i.Member, opd_sexp(i.Store))
         return "(loadmem %d %s %s %s)" % (r, ty_sexp(i.Type), opd_sexp(i.Variable), i.Member)
     if isinstance(i, L.ShuffleInstruction):
@@ -197,6 +205,8 @@ def instr_sexp(i):
 
 def func_sexp(f):
     code = []
+    _cur["consts"] = {id(c) for c in f.Constants}
+    _cur["blocks"] = {id(b) for b in f.BasicBlocks}
     for bb in f.BasicBlocks:
         code.append("(label %d)" % bb.Reference)
         for i in bb.Instructions:
